@@ -2,7 +2,7 @@
 from rv.gen import circuits as G
 from rv.oracle import sim
 from rv.oracle.sim import Net
-from rv.props._util import compare_functions, own_lint
+from rv.props._util import compare_functions, own_lint, repeat_call
 
 RULE = (
     "random lint-clean circuits (some with blackbox pins) with gates of every multi-input type at fan-in 1..7 and nodes "
@@ -44,7 +44,9 @@ def gen(rng, ctx):
             kind += "+hostile"
         except ValueError:
             pass
-    return {"op": op, "c": cd, "kind": kind, "k": rng.randint(2, 5), "stages": rng.randint(1, 4)}
+    if rng.random() < 0.3:
+        cd = G.shuffle_nodes(rng, cd)
+    return {"op": op, "c": cd, "kind": kind, "k": rng.randint(2, 5), "stages": rng.randint(1, 4), "repeat": rng.random() < 0.25}
 
 
 def check(case, ctx):
@@ -67,6 +69,8 @@ def check(case, ctx):
         fn = getattr(cg.tx, op)
         ok, r = ctx.call(fn, c, k)
         what = f"{op}(k={k})"
+        if case.get("repeat") and not repeat_call(ctx, op, what, fn, (c, k), {}, (ok, r)):
+            return
         if not ok:
             ctx.violation(op + "_raised", f"{what} raised {r!r}\n{getattr(r, '_tb', '')}")
             return
@@ -123,6 +127,8 @@ def check(case, ctx):
         boundaries = list(range(inc, maxd, inc))
         ok, r = ctx.call(cg.tx.insert_registers, c, stages)
         what = f"insert_registers(num_stages={stages})"
+        if case.get("repeat") and not repeat_call(ctx, op, what, cg.tx.insert_registers, (c, stages), {}, (ok, r)):
+            return
         if not ok:
             if isinstance(r, ValueError) and "hostile" in case["kind"]:
                 ctx.reject("name_clash")
